@@ -773,16 +773,21 @@ class MultiStream(Stream):
                 data[phase_index, IDs_index] = original_data[phase_index, IDs_index]
                 if remove:
                     excluded_data = other_data[phase_index, IDs_index]
+                    if hasattr(excluded_data, 'copy'): excluded_data = excluded_data.copy() # Not a view of what is cleared next
                     other_data[:] = 0.
                     other_data[phase_index, IDs_index] = excluded_data
             else:
                 other_phase_index = self.imol.get_phase_index(other.phase)
                 data[other_phase_index, :] = other_data
                 data[phase_index, IDs_index] = original_data[phase_index, IDs_index]
-                if remove and (phase is ... or phase_index == other_phase_index):
-                    excluded_data = other_data[IDs_index]
-                    other_data[:] = 0.
-                    other_data[IDs_index] = excluded_data   
+                if remove:
+                    if phase is ... or phase_index == other_phase_index:
+                        excluded_data = other_data[IDs_index]
+                        if hasattr(excluded_data, 'copy'): excluded_data = excluded_data.copy() # Not a view of what is cleared next
+                        other_data[:] = 0.
+                        other_data[IDs_index] = excluded_data
+                    else: # The excluded (phase, IDs) block is not in the source's phase; everything was copied
+                        other_data[:] = 0.
         elif multiphase:
             data[phase_index, IDs_index] = other_data[phase_index, IDs_index]
             if remove: other_data[phase_index, IDs_index] = 0.
